@@ -352,7 +352,7 @@ def finish(pid, tier, level, rules_run, obligations, t0, explanation, assumption
         cov.update(extra_cov)
     ev = {
         "property_id": pid, "tier": tier, "seed": int(os.environ.get("VERIF_SEED", "0") or 0), "level": level,
-        "coverage": cov, "assumptions": assumptions, "wall_s": round(time.time() - t0, 3), "violations": len(unlisted),
+        "coverage": cov, "assumptions": list(assumptions or []) + ["internal names that exist in only one of the reviewed and the current tree are relabelled to the reviewed ones before the rules run (R0, vlib/renames.py; reference spec/names.json); the relabelled names of this run are listed in coverage.names_restored"], "wall_s": round(time.time() - t0, 3), "violations": len(unlisted),
     }
     if notes:
         ev["notes"] = notes
